@@ -29,7 +29,8 @@ TNext ==
             IF r.got # exp THEN Fail("ExponentialRecurrence")
             ELSE IF r.must # MustResult(exp) THEN Fail("MustPanicsIffError") ELSE TRUE
        [] r.e = "hist" ->
-            IF r.used_kind # r.wanted.kind \/ r.used # Sort(r.wanted.elems) THEN Fail("KeepsOwnBounds") ELSE TRUE
+            IF r.used_kind # r.wanted.kind \/ r.used # Sort(r.wanted.elems) THEN Fail("KeepsOwnBounds")
+            ELSE IF ~r.ascending THEN Fail("KeepsOwnBounds:buckets-not-in-ascending-order") ELSE TRUE
        [] r.e = "slice" ->
             IF ~r.unchanged THEN Fail("CallerSliceUntouched") ELSE TRUE
        [] OTHER -> TRUE
